@@ -590,7 +590,35 @@ pub fn corr(run: &mut Run) {
     let mut rng = run.rng("E");
     for _ in 0..run.tier.scale(300, 2500) {
         let nkeys = 1 + rng.below(3) as usize;
-        let keys: Vec<[u8; 16]> = (0..nkeys).map(|_| rng.seed16()).collect();
+        let mut keys: Vec<[u8; 16]> = (0..nkeys).map(|_| rng.seed16()).collect();
+        // related keys: half of the time all keys of a graph differ from the first one in a few bytes only
+        // (shared prefix, shared suffix, single differing byte) — a cache or a key schedule that looks at
+        // part of the key would confuse them
+        if nkeys > 1 && rng.chance(1, 2) {
+            for j in 1..nkeys {
+                let mut k = keys[0];
+                match rng.below(3) {
+                    0 => {
+                        for b in 8..16 {
+                            k[b] = rng.next() as u8;
+                        }
+                    }
+                    1 => {
+                        for b in 0..8 {
+                            k[b] = rng.next() as u8;
+                        }
+                    }
+                    _ => {
+                        let pos = rng.below(16) as usize;
+                        k[pos] ^= 1 << rng.below(8);
+                    }
+                }
+                if k == keys[0] {
+                    k[15] ^= 0x80;
+                }
+                keys[j] = k;
+            }
+        }
         let nspec = 1 + rng.below(5) as usize;
         let ivs: Vec<u64> = (0..2).map(|_| gen_iv(&mut rng)).collect();
         let mut budget = 4000u64;
